@@ -35,4 +35,22 @@ def uuidOfBuffer (b : Bytes) : Option (List Char) :=
           byteLower b12 ++ byteLower b13 ++ byteLower b14 ++ byteLower b15)
   | _ => none
 
+/-- compression (the inverse direction of `decompress`), for canonical ids "UUUNNNN" -/
+def hexVal (c : Char) : Nat :=
+  if '0' ≤ c ∧ c ≤ '9' then c.toNat - 48 else if 'a' ≤ c ∧ c ≤ 'f' then c.toNat - 87 else c.toNat - 55
+
+def compress (cs : List Char) : Nat :=
+  let l (k : Nat) := (cs.getD k 'A').toNat - 64
+  let d (k : Nat) := hexVal (cs.getD k '0')
+  let b0 := l 0 * 4 + l 1 / 8
+  let b1 := (l 1 % 8) * 32 + l 2
+  let b2 := d 3 * 16 + d 4
+  let b3 := d 5 * 16 + d 6
+  b0 + 256 * b1 + 65536 * b2 + 16777216 * b3
+
+/-- ToUUID: "aabbccdd-eeff-gghh-iijj-kkllmmnnoopp" ↦ dd cc bb aa ff ee hh gg ii jj kk ll mm nn oo pp -/
+def uuidToBuffer (cs : List Char) : Bytes :=
+  let h (i : Nat) : UInt8 := UInt8.ofNat (16 * hexVal (cs.getD i '0') + hexVal (cs.getD (i + 1) '0'))
+  [h 6, h 4, h 2, h 0, h 11, h 9, h 16, h 14, h 19, h 21, h 24, h 26, h 28, h 30, h 32, h 34]
+
 end Acpi.Spec.Eisa
